@@ -33,7 +33,10 @@ Step == /\ l <= Len(Log) /\ l' = l + 1
                             ELSE Append(bad, [sid |-> sid, line |-> l, why |-> "listing shows an impostor as genuine or drops an entry"])
                   /\ UNCHANGED <<sid, W, H, drift>>
              [] e.ev = "author" ->
-                  /\ bad' = IF e.shown => e.post_host = e.author_host THEN bad
+                  \* where a post and its author live is where they were served from, not only what their ids say
+                  /\ bad' = IF e.shown => /\ e.post_host = e.author_host
+                                          /\ e.post_served \in {"none", e.author_host}
+                                          /\ e.author_served \in {"none", e.author_host} THEN bad
                             ELSE Append(bad, [sid |-> sid, line |-> l, why |-> "post shown with an author from another host"])
                   /\ UNCHANGED <<sid, W, H, drift>>
              [] OTHER -> UNCHANGED <<sid, bad, drift, W, H>>
